@@ -137,7 +137,7 @@ func TestC19(t *testing.T) {
 		Var  int
 	}
 	var gens []g
-	nseeds := r.Pick(3, 40)
+	nseeds := r.Pick(6, 150)
 	for s := 0; s < nseeds; s++ {
 		for _, sz := range sizes {
 			if r.Quick() && sz > 64<<10 && s > 0 {
